@@ -60,7 +60,11 @@ def trial(cfg):
             with w.group(): ents.append(w.start('S', sim_id=f'S{i}', **kw).M())
         else:
             ents.append(w.start('S', sim_id=f'S{i}', **kw).M())
-    for a, b in cfg.get('connect', []): w.connect(ents[a], ents[b], ('po', 'i'))
+    for c in cfg.get('connect', []):
+        a, b = c[0], c[1]
+        if len(c) == 2: w.connect(ents[a], ents[b], ('po', 'i'))
+        elif c[2] == 'trig': w.connect(ents[a], ents[b], ('po', 'ti'))                      # triggering connection
+        else: w.connect(ents[a], ents[b], ('po', 'ti'), time_shifted=c[3])                 # 'trig_ts': time-shifted triggering connection
     for i, s in enumerate(cfg['sims']):
         if s.get('typ') == 'event-based': w.set_initial_event(f'S{i}', 0)
     real = sched.perf_counter; sched.perf_counter = loop.time
@@ -136,6 +140,16 @@ def configs(tier, rng):
         out.append(dict(rt=rt, res=1.0, until=12, strict=False, sims=[{'typ': 'event-based', 'self_steps': False, 'events': {'0': [4]}}, {'step_size': 8}], connect=[(0, 1)]))
         out.append(dict(rt=rt, res=1.0, until=12, strict=False, sims=[{'typ': 'event-based', 'self_steps': False, 'events': {'0': [3, 5]}}, {'step_size': 6}, {'step_size': 11}], connect=[(0, 1), (0, 2)]))
         out.append(dict(rt=rt, res=1.0, until=10, strict=False, sims=[{'step_size': 3}, {'step_size': 7}], connect=[(0, 1)]))
+    for rt in rts:
+        # triggered simulators behind an ancestor whose next step is far away: own queued steps (external events, self-steps)
+        # and time-shifted triggers must still be paced by the clock
+        ev = {'typ': 'event-based', 'self_steps': False}
+        out.append(dict(rt=rt, res=1.0, until=12, strict=False, sims=[{'step_size': 10}, dict(ev, events={'0': [2], '2': [4]})], connect=[(0, 1, 'trig')]))
+        out.append(dict(rt=rt, res=1.0, until=8, strict=False, sims=[{'step_size': 5}, {'typ': 'hybrid', 'step_size': 1}], connect=[(0, 1, 'trig')]))
+        out.append(dict(rt=rt, res=1.0, until=9, strict=False, sims=[{'step_size': 4}, {'typ': 'hybrid', 'step_size': 1}], connect=[(0, 1, 'trig_ts', 3)]))
+        out.append(dict(rt=rt, res=1.0, until=9, strict=False, sims=[{'step_size': 4}, {'typ': 'hybrid', 'step_size': 2}], connect=[(0, 1, 'trig_ts', 2)]))
+        out.append(dict(rt=rt, res=1.0, until=10, strict=False, sims=[{'step_size': 6}, dict(ev, events={'0': [3, 5]}), {}], connect=[(0, 1, 'trig'), (1, 2)]))
+        out.append(dict(rt=rt, res=0.5, until=10, strict=True, sims=[{'step_size': 7, 'group': True}, dict(ev, events={'0': [2], '2': [5, 12]})], connect=[(0, 1, 'trig')]))
     for rt in rts:
         out.append(dict(rt=rt, res=1.0, until=4, strict=False, sims=[{'duration': rt * 1.5}, {}], connect=[(0, 1)]))     # genuinely slow
         out.append(dict(rt=rt, res=1.0, until=4, strict=True, sims=[{'duration': rt * 1.5}, {}], connect=[(0, 1)]))
